@@ -244,7 +244,7 @@ def run(tier, seed, rng):
     cases = []
     for e in exprs:
         env = rng.choice(envs)
-        cases.append(dict(src_d=decl.py_expr(e, 'D'), src_l=decl.py_expr(e, 'L'), env=env,
+        cases.append(dict(src_d=decl.py_expr(e, 'D'), src_l=decl.py_expr(e, 'L'), env=env, more_envs=[x for x in envs if x is not env] + [env],
                           symbolic=not has(e, ('Truth', 'Len', 'choose', 'choosed', 'ite'))))
     # oracle-only: operators outside the modelled integer domain (true division, power), against eval of the same text
     extra = []
@@ -267,6 +267,11 @@ def run(tier, seed, rng):
         if d != g:
             failures.append(dict(kind='oracle', sig='expr-meaning', what='the deferred expression does not evaluate to what the same python expression evaluates to',
                                  case=c, observed=d, required=g))
+        for k2, (d2, g2) in enumerate(o.get('again', [])):
+            if d2 != g2:
+                failures.append(dict(kind='oracle', sig='expr-meaning-again', what=f'evaluated again (evaluation {k2 + 2} of the same compiled expression) it does not mean what the python expression means',
+                                     case=c, observed=d2, required=g2))
+                break
     for e, c, o in zip(exprs, cases, outcomes):
         if 'build' in o:
             lines.append("(ELit VNone, [], [], inr (-5), None)")
